@@ -134,6 +134,13 @@ def echo(*a, **k):
     return [list(a), sorted([kk, vv] for kk, vv in k.items())]
 
 
+def echo_pad(*a, **k):
+    """echo with a result much bigger than a socket buffer."""
+    if a and a[0] == 'POISON':
+        raise ValueError('poisoned')
+    return [list(a), sorted([kk, vv] for kk, vv in k.items()), b'p' * 400000]
+
+
 def echo_mut(*a, **k):
     """Returns what it was called with, then vandalises every mutable argument in place."""
     import copy
